@@ -1,0 +1,150 @@
+//! Verification hooks (cargo feature `verif`, off by default).
+//!
+//! Nothing in this module is compiled into a normal build. With the feature on,
+//! a monitor may install a per-thread event sink; the library then reports a few
+//! internal events (worker partition of the threaded dot product, loop counters
+//! of `polydiv`, exit reasons of the Laguerre iteration). Without a sink the
+//! hooks do nothing.
+
+use std::cell::RefCell;
+use std::sync::atomic::{AtomicUsize, Ordering};
+use std::sync::{Arc, Mutex};
+
+#[derive(Clone, Debug, PartialEq)]
+pub enum Event {
+    /// `dot_f64` was entered with vectors of length `len` and `workers` workers.
+    DotBegin { len: usize, workers: usize },
+    /// Worker `worker` was given the index range `start..end`.
+    DotChunk { worker: usize, start: usize, end: usize },
+    /// Worker `worker` finished as the `ticket`-th worker (0-based).
+    DotDone { worker: usize, ticket: usize },
+    /// All workers of the current `dot_f64` call were joined.
+    DotEnd,
+    /// The main loop of the named routine starts its `count`-th pass (0-based).
+    Step { site: &'static str, count: usize },
+    /// `laguer` on a polynomial of degree `m` is about to return after
+    /// `iterations` passes. `exit`: 0 converged (|p(x)| below the rounding
+    /// estimate), 1 stalled (x == x1), 2 iteration cap exhausted.
+    Laguer { m: usize, iterations: usize, exit: u8 },
+}
+
+thread_local! {
+    static SINK: RefCell<Option<Box<dyn FnMut(Event)>>> = RefCell::new(None);
+    static DELAYS: RefCell<Vec<u64>> = RefCell::new(Vec::new());
+}
+
+/// Install an event sink for the calling thread (replaces any previous one).
+pub fn set_sink(sink: Box<dyn FnMut(Event)>) {
+    SINK.with(|s| *s.borrow_mut() = Some(sink));
+}
+
+/// Remove the calling thread's event sink.
+pub fn clear_sink() {
+    SINK.with(|s| *s.borrow_mut() = None);
+}
+
+/// True if the calling thread has a sink installed.
+pub fn active() -> bool {
+    SINK.with(|s| s.borrow().is_some())
+}
+
+/// Per-worker delays (microseconds) injected at the end of each `dot_f64`
+/// worker started from the calling thread; worker `i` uses `delays[i % len]`.
+pub fn set_dot_delays(delays: Vec<u64>) {
+    DELAYS.with(|d| *d.borrow_mut() = delays);
+}
+
+/// Deliver an event to the calling thread's sink, if any. The sink is taken out
+/// while it runs, so a sink that unwinds leaves the thread without a sink.
+pub fn emit(ev: Event) {
+    let taken = SINK.with(|s| s.borrow_mut().take());
+    if let Some(mut f) = taken {
+        f(ev);
+        SINK.with(|s| {
+            let mut slot = s.borrow_mut();
+            if slot.is_none() { *slot = Some(f); }
+        });
+    }
+}
+
+#[inline]
+pub fn step(site: &'static str, count: usize) {
+    emit(Event::Step { site, count });
+}
+
+#[inline]
+pub fn laguer(m: usize, iterations: usize, exit: u8) {
+    emit(Event::Laguer { m, iterations, exit });
+}
+
+/// Shared log of one `dot_f64` call; worker threads append to it.
+pub struct DotLog {
+    inner: Option<Arc<DotInner>>,
+    slots: Vec<DotSlot>,
+}
+
+struct DotInner {
+    events: Mutex<Vec<Event>>,
+    ticket: AtomicUsize,
+}
+
+pub struct DotSlot {
+    worker: usize,
+    delay_us: u64,
+    inner: Option<Arc<DotInner>>,
+}
+
+static DISABLED_SLOT: DotSlot = DotSlot { worker: 0, delay_us: 0, inner: None };
+
+impl DotLog {
+    /// Called on entry of `dot_f64`.
+    pub fn begin(len: usize, workers: usize) -> DotLog {
+        if !active() {
+            return DotLog { inner: None, slots: Vec::new() };
+        }
+        let inner = Arc::new(DotInner {
+            events: Mutex::new(vec![Event::DotBegin { len, workers }]),
+            ticket: AtomicUsize::new(0),
+        });
+        let delays = DELAYS.with(|d| d.borrow().clone());
+        let mut slots = Vec::with_capacity(workers);
+        for worker in 0..workers {
+            let delay_us = if delays.is_empty() { 0 } else { delays[worker % delays.len()] };
+            slots.push(DotSlot { worker, delay_us, inner: Some(inner.clone()) });
+        }
+        DotLog { inner: Some(inner), slots }
+    }
+
+    /// Record the index range handed to `worker` and return its slot.
+    pub fn chunk(&self, worker: usize, start: usize, end: usize) -> &DotSlot {
+        match &self.inner {
+            None => &DISABLED_SLOT,
+            Some(inner) => {
+                inner.events.lock().unwrap().push(Event::DotChunk { worker, start, end });
+                &self.slots[worker]
+            }
+        }
+    }
+
+    /// Called after all workers were joined: forwards the log to the sink.
+    pub fn end(&self) {
+        if let Some(inner) = &self.inner {
+            let mut events = std::mem::take(&mut *inner.events.lock().unwrap());
+            events.push(Event::DotEnd);
+            for ev in events { emit(ev); }
+        }
+    }
+}
+
+impl DotSlot {
+    /// Called by a worker when its partial sum is complete.
+    pub fn done(&self) {
+        if let Some(inner) = &self.inner {
+            if self.delay_us > 0 {
+                std::thread::sleep(std::time::Duration::from_micros(self.delay_us));
+            }
+            let ticket = inner.ticket.fetch_add(1, Ordering::SeqCst);
+            inner.events.lock().unwrap().push(Event::DotDone { worker: self.worker, ticket });
+        }
+    }
+}
